@@ -241,6 +241,17 @@ impl E1Oracle for C15Oracle {
     fn fingerprint(&mut self, g: &G, alphabet: &Alphabet) -> u64 {
         let mut h = 0u64;
         let sub = g.get_subgraph(&alphabet.names);
+        let mut se: Vec<(N, N, u64, Option<A>)> = sub.get_all_edges().iter().map(|e| (e.u, e.v, wbits(e.weight), e.attributes)).collect();
+        se.sort();
+        for e in &se {
+            fp_str(&mut h, e.0);
+            fp_str(&mut h, e.1);
+            fp_mix(&mut h, e.2);
+            fp_mix(&mut h, e.3.map_or(0, |x| x as u64 + 1));
+        }
+        if let Ok(r) = g.reverse() {
+            fp_mix(&mut h, r.size(true).to_bits());
+        }
         fp_mix(&mut h, sub.get_all_edges().len() as u64);
         fp_mix(&mut h, sub.number_of_nodes() as u64);
         fp_mix(&mut h, g.reverse().map_or(u64::MAX, |r| r.get_all_edges().len() as u64));
